@@ -1,15 +1,38 @@
 (* C05 -- Schemas survive saving and reloading in every format.
    Property theorems only; each closed with [exact] and followed by Print Assumptions.
 
-   What is proved here (for ALL inputs in the stated classes) is the logical core: the
-   attribute-string grammar shared by MediaWiki and TSV, one MediaWiki tag line (writer and
-   reader, including the nowiki wrapper and the tag-name expression), and the traversal that
-   selects entries/attributes per save mode, plus the multi-library refusal.  XML lexing,
-   pandas CSV I/O, the loaders' parent tracking / partnered merge and whole-file equality are
-   outside the model and are exercised end-to-end on the implementation only (harness/c05*.py). *)
+   "The code as it is" = the current /repo, which contains every repair of this property:
+     C05-F1 4719ff8 (XML reader strips descriptions)      C05-F2 394565c (TSV read without quote processing)
+     C05-F3 784517a ('extend here' looked for in the name) C05-F4 8fb8446 (TSV unit class stub)
+     C05-F5 4b4f5c6 (XML/TSV readers strip names)          C05-F7 f2636f2 (trees arranged parents-first)
+   The model switches fixed / fixed5 select the behaviour before (false) or after (true) these commits; theorems
+   named without suffix are stated at the CURRENT mode (true).  Every theorem whose name ends in _refuted, and every
+   statement at mode false, is the RECORD of a repaired defect (behaviour before the commit named next to it) or of
+   a variant that is NOT the code (labelled so); none of them says the property is false of the implementation.
+   Open findings: C05-F3 rest (nowiki words inside a description), C05-F6 (tab / line feed in a name) and C05-F8
+   (a TSV location named *.TSV; fix proposed, not yet in /repo).
+
+   WHAT IS PROVED (all inputs in the stated classes):
+     - schema level, MediaWiki tag section of a merged save: decoding the lines written for a list of tag entries
+       gives back the same entries -- long names (hence parents), attributes, descriptions
+       (C05_wiki_tag_section_roundtrip, composed from the root-line and level>=1 line theorems and the rebuilding of
+       names from order and level);
+     - one line of every other MediaWiki section (units, unit classes, modifiers, value classes, attributes,
+       properties): C05_wiki_entry_line_roundtrip;
+     - the attribute-string grammar shared by MediaWiki and TSV, one TSV tag row, the TSV unit class stub row;
+     - the traversal that selects entries/attributes per save mode; the refusal of every multi-library merge;
+     - under the stated abstraction: line splitting at LF, the TSV file set, the XML name element.
+   WHAT HOLDS ONLY BY CONSTRUCTION OF THE MODEL: that the writer's entry list is parents-first
+   (HedSchemaTagSection._finalize_section is not modelled; tested, and repaired by f2636f2); that a TSV location
+   is a map from the ten suffixes (file naming is not modelled).
+   WHAT IS TESTED ONLY (harness/c05*.py, on the implementation): the headline clause at the level of whole
+   schemas -- save;load == original for XML, MediaWiki, TSV x merged/unmerged over all bundled schemas and generated
+   edits --, cross-format equality, the independent ElementTree listing, the TSV tag table as a whole (parents
+   by rdfs:subClassOf), header/prologue/epilogue, the '#' line layout, unmerged (rooted / level-adjusted) MediaWiki
+   sections, XML lexing and pretty printing, pandas CSV I/O, section splitting, the partnered merge on load. *)
 From Coq Require Import List NArith ZArith Bool.
 From HV Require Import Base.Res Base.Str Base.StrOps Model.AttrCodec Model.WikiCodec Model.Traversal
-     Model.TsvCodec Model.TsvFiles Proofs.TsvFilesProofs Proofs.AttrCodecProofs Proofs.WikiCodecProofs Proofs.TsvCodecProofs
+     Model.TsvCodec Model.TsvFiles Proofs.C05Current Proofs.TsvFilesProofs Proofs.AttrCodecProofs Proofs.WikiCodecProofs Proofs.TsvCodecProofs
      Proofs.TraversalProofs Proofs.C05Examples.
 Import ListNotations.
 
@@ -33,7 +56,52 @@ Theorem C05_attr_roundtrip : forall a : attrs,
 Proof. exact attr_roundtrip. Qed.
 Print Assumptions C05_attr_roundtrip.
 
-(* wiki_line_roundtrip for the code AS IT NOW IS (repairs of C05-F1 and C05-F3: fixed = true).
+(* SCHEMA LEVEL (MediaWiki tag section, merged save, current reader).  [write_tag_section] is the traversal of a
+   merged save (one line per entry, level = depth) through the line writer; [read_tag_section] is the loop of
+   SchemaLoaderWiki._read_schema (root lines start a tree, other lines keep the first `level` terms of the previous
+   long name, a skipped generation or a rejected line fails the load).  If the entry list is parents-first and every
+   entry is in the class of the line theorems, decoding the written lines gives back exactly the entries: long names
+   (so every parent), attributes (minus those the save mode suppresses) and descriptions.  Hypothesis 3 is the
+   reader's reserved-word test per line (inputs-only form: C05_wiki_line_roundtrip_inputs).
+   Not covered: value-taking '#' children (own line layout: correspondence only) and unmerged saves. *)
+Theorem C05_wiki_tag_section_roundtrip :
+  forall (disallowed : str -> bool) (es : list tag_item) (lines : list str),
+  write_tag_section disallowed es = map Some lines ->
+  Forall (fun e => name_ok (last (ti_path e) []) = true /\ desc_ok (ti_desc e) = true /\ attr_ok (ti_attrs e) = true
+                   /\ wiki_text_ok (format_tag_attributes disallowed (ti_attrs e)) = true) es ->
+  Forall2 (fun e line => row_free_of_reserved true (last (ti_path e) []) line = true) es lines ->
+  paths_parents_first [] (map ti_path es) ->
+  read_tag_section true [] lines = Ok (map (kept_item disallowed) es).
+Proof. exact cur_wiki_tag_section_roundtrip. Qed.
+Print Assumptions C05_wiki_tag_section_roundtrip.
+
+(* a root line (level 0), current reader *)
+Theorem C05_wiki_root_line_roundtrip :
+  forall (disallowed : str -> bool) (n : str) (a : attrs) (d : option str) (line : str),
+  name_ok n = true -> desc_ok d = true ->
+  attr_ok a = true -> wiki_text_ok (format_tag_attributes disallowed a) = true ->
+  write_tag_line disallowed n 0 a d = Some line ->
+  row_free_of_reserved true n line = true ->
+  read_tag_line true line = Ok (Some (mkParsed true 0 n (filter (fun kv => negb (disallowed (fst kv))) a) d)).
+Proof. exact cur_wiki_root_line_roundtrip. Qed.
+Print Assumptions C05_wiki_root_line_roundtrip.
+
+(* the level>=1 line with every hypothesis on the INPUTS (audit: the zero-width-entity condition used to be stated on
+   the written line): no '&' in name, attribute string and description keeps the entity out of the row *)
+Theorem C05_wiki_line_roundtrip_inputs :
+  forall (disallowed : str -> bool) (lvl : nat) (n : str) (a : attrs) (d : option str),
+  name_ok n = true -> desc_ok d = true ->
+  attr_ok a = true -> wiki_text_ok (format_tag_attributes disallowed a) = true ->
+  contains s_extend_here n = false ->
+  memb ch_amp n = false -> memb ch_amp (format_tag_attributes disallowed a) = false ->
+  match d with Some D => memb ch_amp D = false | None => True end ->
+  exists line, write_tag_line disallowed n (S lvl) a d = Some line /\
+    read_tag_line true line
+    = Ok (Some (mkParsed false (S lvl) n (filter (fun kv => negb (disallowed (fst kv))) a) d)).
+Proof. exact wiki_line_roundtrip_inputs. Qed.
+Print Assumptions C05_wiki_line_roundtrip_inputs.
+
+(* wiki_line_roundtrip for the code AS IT NOW IS (repairs of C05-F1 4719ff8 and C05-F3 784517a: fixed = true).
    A tag written at any level >= 1 by _write_tag_entry/_format_props_and_desc/_flush_current_tag is read
    back (strip, nowiki removal, level, tag-name expression, {..} and [..] sections, attribute grammar)
    as the same level, name, attributes and description, for EVERY description the XML reader can
@@ -73,8 +141,9 @@ Print Assumptions C05_xml_desc_normal.
    sections (Schema2Wiki._write_entry, depth 1 or 2 for units) round-trips for every name that is ONE OPAQUE
    TERM: ename_ok asks only for non-empty, no outer blanks, none of [ ] { } LF < ' -- a slash ('m/s', 'km/h'),
    '$', '^', inner blanks or a final '#', admitted e.g. through the entry's own allowedCharacter attribute, are
-   ordinary characters of the name.  Both versions of the reader. *)
-Theorem C05_wiki_entry_line_roundtrip :
+   ordinary characters of the name.  This statement covers both versions of the reader (the same conclusion
+   under each version's own reserved-word test; it is not a 'then/else refutation'). *)
+Theorem C05_wiki_entry_line_roundtrip_both :
   forall (fixed : bool) (disallowed : str -> bool) (lvl : nat) (n : str) (a : attrs) (d : option str) (line : str),
   ename_ok n = true -> desc_ok d = true ->
   attr_ok a = true -> wiki_text_ok (format_tag_attributes disallowed a) = true ->
@@ -83,6 +152,17 @@ Theorem C05_wiki_entry_line_roundtrip :
   read_entry_line fixed line
   = Ok (Some (mkParsed false (S lvl) n (filter (fun kv => negb (disallowed (fst kv))) a) d)).
 Proof. exact wiki_entry_line_roundtrip. Qed.
+Print Assumptions C05_wiki_entry_line_roundtrip_both.
+
+(* the same at the current mode, as its own statement *)
+Theorem C05_wiki_entry_line_roundtrip :
+  forall (disallowed : str -> bool) (lvl : nat) (n : str) (a : attrs) (d : option str) (line : str),
+  ename_ok n = true -> desc_ok d = true ->
+  attr_ok a = true -> wiki_text_ok (format_tag_attributes disallowed a) = true ->
+  write_entry_line disallowed n (S lvl) true a d = Some line ->
+  row_free_of_reserved true n line = true ->
+  read_entry_line true line = Ok (Some (mkParsed false (S lvl) n (filter (fun kv => negb (disallowed (fst kv))) a) d)).
+Proof. exact cur_wiki_entry_line_roundtrip. Qed.
 Print Assumptions C05_wiki_entry_line_roundtrip.
 
 (* The XML writer is modelled at the level of the name element only: for a non-tag entry its text is the whole
@@ -120,9 +200,9 @@ Print Assumptions C05_written_line_has_no_lf.
 
 (* Names.  name_ok asks for no outer white space.  The name class of the compliance check admits every
    non-ASCII character, also blanks (U+00A0, U+2028, U+0085 ...): a name ENDING in one is kept by the XML and
-   TSV readers of the current code (xml_read_name false) but cannot be expressed in a MediaWiki line --
-   finding C05-F5, refuted statement below.  With fix-F5 (xml_read_name true) the hypothesis is an invariant
-   of loaded schemas. *)
+   TSV readers BEFORE fix commit 4b4f5c6 (xml_read_name false) but cannot be expressed in a MediaWiki line --
+   the repaired finding C05-F5; the _refuted statement below is its record.  In the current code
+   (xml_read_name true) the hypothesis is an invariant of loaded schemas (C05_xml_name_normal_after_fix). *)
 Theorem C05_xml_name_not_normal_refuted : exists text, no_outer_ws (xml_read_name false text) = false.
 Proof. exact xml_name_not_normal_before. Qed.
 Print Assumptions C05_xml_name_not_normal_refuted.
@@ -131,7 +211,7 @@ Theorem C05_xml_name_normal_after_fix : forall text, no_outer_ws (xml_read_name 
 Proof. exact xml_name_normal. Qed.
 Print Assumptions C05_xml_name_normal_after_fix.
 
-(* the same line round trip for both versions of the reader, with the description class as an explicit
+(* the same line round trip for both versions of the reader (mode false = before 4719ff8 / 784517a), with the description class as an explicit
    hypothesis (desc_ok adds: non-empty, no outer blanks) and the version's own reserved-word test *)
 Theorem C05_wiki_line_roundtrip_both :
   forall (fixed : bool) (disallowed : str -> bool) (lvl : nat) (n : str) (a : attrs) (d : option str) (line : str),
@@ -144,7 +224,7 @@ Theorem C05_wiki_line_roundtrip_both :
 Proof. exact wiki_line_roundtrip. Qed.
 Print Assumptions C05_wiki_line_roundtrip_both.
 
-(* RECORD OF THE REPAIRED DEFECTS (fixed = false, the reader before fix-F1/fix-F3): over the text class
+(* RECORD OF THE REPAIRED DEFECTS (fixed = false, the reader before fix commits 4719ff8 (F1) and 784517a (F3)): over the text class
    that schema compliance allows in descriptions the round trip was FALSE -- a description with an outer
    blank came back stripped while the XML reader kept it (C05-F1), and 'extend here' in a description
    made the load fail (C05-F3, C05_desc_extend_here_refused below). *)
@@ -159,19 +239,27 @@ Theorem C05_xml_desc_not_normal_before_refuted :
 Proof. exact xml_desc_not_normal_before. Qed.
 Print Assumptions C05_xml_desc_not_normal_before_refuted.
 
-(* C05-F4, repaired: a unit class row written without its properties (a standard unit class that holds
+(* C05-F4, repaired by 8fb8446: a unit class row written without its properties (a standard unit class that holds
    library units, unmerged save) is read back as a bare name and, once tagged with the library, is exactly
    the placeholder HedSchemaUnitClassSection._check_if_duplicate accepts -- for every content of the entry *)
-Theorem C05_tsv_stub_row : forall (fixed5 strip_lib : bool) (n : str) (a : attrs) (d : option str) (library : str),
+Theorem C05_tsv_stub_row_both : forall (fixed5 strip_lib : bool) (n : str) (a : attrs) (d : option str) (library : str),
   (if fixed5 then no_outer_ws n else true) = true ->
   endswith s_dash_hash n = false ->
   exists a',
     tsv_read_row fixed5 (tsv_write_entry_row true strip_lib false n a d) = Ok (n, a', None)
     /\ unit_class_stub (tag_with_library library a') = true.
 Proof. exact tsv_stub_row_fixed. Qed.
+Print Assumptions C05_tsv_stub_row_both.
+
+Theorem C05_tsv_stub_row : forall (strip_lib : bool) (n : str) (a : attrs) (d : option str) (library : str),
+  no_outer_ws n = true -> endswith s_dash_hash n = false ->
+  exists a',
+    tsv_read_row true (tsv_write_entry_row true strip_lib false n a d) = Ok (n, a', None)
+    /\ unit_class_stub (tag_with_library library a') = true.
+Proof. exact cur_tsv_stub_row. Qed.
 Print Assumptions C05_tsv_stub_row.
 
-(* record of the repaired defect: the writer that ignored include_props *)
+(* record of the repaired defect (behaviour before 8fb8446): the writer that ignored include_props *)
 Theorem C05_tsv_stub_row_unfixed_refuted :
   exists n a library,
     attr_ok a = true /\ endswith s_dash_hash n = false /\
@@ -183,21 +271,36 @@ Print Assumptions C05_tsv_stub_row_unfixed_refuted.
 (* tsv_row_roundtrip: a row of the TSV tag table (name, attributes, description columns; the entry has
    no hedId, which travels in its own column) is read back as the same name, the attributes the TSV
    writer keeps (never hedId/annotationProperty, inLibrary unless merging) and the description.
-   The cell layer (pandas to_csv/read_csv quoting) is outside the model: finding C05-F2 lives there. *)
-Theorem C05_tsv_row_roundtrip : forall (fixed5 strip_lib : bool) (n : str) (a : attrs) (d : option str),
-  (if fixed5 then no_outer_ws n else true) = true ->      (* with fix-F5 the reader strips the name cell *)
+   The cell layer (pandas to_csv/read_csv quoting) is outside the model: the repaired finding C05-F2 (394565c)
+   lived there. *)
+Theorem C05_tsv_row_roundtrip_both : forall (fixed5 strip_lib : bool) (n : str) (a : attrs) (d : option str),
+  (if fixed5 then no_outer_ws n else true) = true ->      (* since 4b4f5c6 the reader strips the name cell *)
   attr_ok a = true -> dict_get s_hedId a = None -> tsv_desc_ok d = true ->
   memb ch_slash n = false -> endswith [ch_slash; ch_hash] n = false ->
   endswith [ch_hash] n = false -> endswith s_dash_hash n = false ->
   tsv_read_row fixed5 (tsv_write_tag_row strip_lib n a d)
   = Ok (n, filter (fun kv => negb (attribute_disallowed_df strip_lib (fst kv))) a, d).
 Proof. exact tsv_row_roundtrip. Qed.
+Print Assumptions C05_tsv_row_roundtrip_both.
+
+(* current mode (the TSV reader strips the name cell since 4b4f5c6) *)
+Theorem C05_tsv_row_roundtrip : forall (strip_lib : bool) (n : str) (a : attrs) (d : option str),
+  no_outer_ws n = true ->
+  attr_ok a = true -> dict_get s_hedId a = None -> tsv_desc_ok d = true ->
+  memb ch_slash n = false -> endswith [ch_slash; ch_hash] n = false ->
+  endswith [ch_hash] n = false -> endswith s_dash_hash n = false ->
+  tsv_read_row true (tsv_write_tag_row strip_lib n a d)
+  = Ok (n, filter (fun kv => negb (attribute_disallowed_df strip_lib (fst kv))) a, d).
+Proof. exact cur_tsv_row_roundtrip. Qed.
 Print Assumptions C05_tsv_row_roundtrip.
 
 (* A TSV save is a TOTAL OVERWRITE of the section files of its location: Schema2DF always hands the full
    fixed set of ten tables to save_dataframes, which writes one file per table whatever the table holds, so
    loading after a save gives exactly what was saved -- for every earlier content of the location (a file
-   left by an earlier save of another schema cannot leak into the reload).  Tied to the code by checking the
+   left by an earlier save of another schema cannot leak into the reload).  SCOPE (audit): a location is modelled as a
+   map from the ten suffixes, so this is get-after-set over a fixed key list -- its content is that the key list does
+   not depend on the tables; file NAMING and paths, where a leak could also arise, are not modelled and are covered
+   only by the harness clauses tsv-file-set / save-overwrites-location.  Tied to the code by checking the
    list of files every save writes (harness clause tsv-file-set) and by save/save/load histories. *)
 Theorem C05_tsv_save_total_overwrite : forall (rows_of : str -> list row) (loc : location),
   load_dataframes (save_dataframes false (output_tables rows_of) loc) = output_tables rows_of.
@@ -208,6 +311,47 @@ Theorem C05_tsv_files_written_full : forall rows_of : str -> list row,
   files_written false (output_tables rows_of) = df_suffixes.
 Proof. exact files_written_full. Qed.
 Print Assumptions C05_tsv_files_written_full.
+
+(* TSV CELLS.  to_csv / read_csv are modelled at the level of one cell with the two parameters that decide what
+   happens to a cell without a value (na_rep) and to special texts (na_values).  The code uses NO marker (na_rep = '',
+   na_filter=False): every non-empty text comes back as itself -- 'n/a', 'NA', 'nan', 'None', 'null', '#N/A', '<NA>',
+   'true', '1.0' included -- and an absent value comes back absent.  The pandas machinery itself is not modelled:
+   the tie is the harness check tsv-cell-texts (the real save_dataframes / load_dataframes on a table of such texts). *)
+Theorem C05_tsv_cell_roundtrip : forall c : option str,
+  c <> Some [] -> cell_value (csv_read_cell [] (csv_write_cell [] c)) = c.
+Proof. exact cell_roundtrip. Qed.
+Print Assumptions C05_tsv_cell_roundtrip.
+
+(* not the code: with any marker for the empty cell the text that equals the marker is lost *)
+Theorem C05_tsv_cell_marker_variant_refuted :
+  exists marker c, c <> Some [] /\ cell_value (csv_read_cell [marker] (csv_write_cell marker c)) <> c.
+Proof. exact cell_marker_variant_loses_text. Qed.
+Print Assumptions C05_tsv_cell_marker_variant_refuted.
+
+(* TSV SAVE LOCATIONS.  The ten file names the writer (save_dataframes) and the reader (convert_filenames_to_dict)
+   derive from a location: they agree for every FOLDER name whatever dots it holds (HED8.3.0, a.b.c, trailing dot) and
+   for a name ending in .tsv; tied by the correspondence kind 'tsvloc' and the location names of the end-to-end runs.
+   OPEN FINDING C05-F8 (current code, fixed8 = false): a name ending in .TSV / .Tsv is a file base for the writer
+   and a folder for the reader -- refuted statement below; with the proposed fix-F8 (fixed8 = true) they always agree. *)
+Theorem C05_tsv_folder_files_agree : forall (parent : list str) (name : str),
+  is_dot_tsv_ci name = false -> reader_files false parent name = writer_files parent name.
+Proof. exact folder_files_agree. Qed.
+Print Assumptions C05_tsv_folder_files_agree.
+
+Theorem C05_tsv_location_files_agree : forall (parent : list str) (name : str),
+  is_dot_tsv_ci name = is_dot_tsv_cs name -> reader_files false parent name = writer_files parent name.
+Proof. exact location_files_agree. Qed.
+Print Assumptions C05_tsv_location_files_agree.
+
+Theorem C05_tsv_location_upper_suffix_refuted :
+  exists parent name, reader_files false parent name <> writer_files parent name.
+Proof. exact location_upper_suffix_disagrees. Qed.
+Print Assumptions C05_tsv_location_upper_suffix_refuted.
+
+Theorem C05_tsv_location_files_agree_after_fix : forall (parent : list str) (name : str),
+  reader_files true parent name = writer_files parent name.
+Proof. exact location_files_agree_fixed. Qed.
+Print Assumptions C05_tsv_location_files_agree_after_fix.
 
 (* not the code: a save that leaves out the file of an empty table is not an overwrite (the reason the
    full file set matters; a change of save_dataframes in this direction is caught by the harness) *)
@@ -257,8 +401,8 @@ Print Assumptions C05_merged_levels.
    directly behind its parent or a node of its parent's subtree -- every long name comes back intact; the levels
    are the depths (C05_merged_levels) and the order is that of the entry list (C05_merged_emits_all_once).
    Whether the entry list IS parents-first is a property of HedSchemaTagSection._finalize_section, not modelled:
-   it is tested end-to-end, and it is FALSE of the code before fix-F7 for a library node rooted in a top-level tree
-   that does not allow extensions (finding C05-F7; the refuted statement below is its shape). *)
+   it is tested end-to-end, and it was FALSE of the code before fix commit f2636f2 for a library node rooted in a top-level tree
+   that does not allow extensions (the repaired finding C05-F7; the _refuted statement below records its shape, it is not about the current code). *)
 Theorem C05_wiki_names_rebuilt : forall names : list tname,
   parents_first [] names -> rebuild_names [] (map wiki_tag_line names) = Ok names.
 Proof. exact wiki_names_rebuilt. Qed.
@@ -270,6 +414,10 @@ Theorem C05_wiki_names_wrong_parent_refuted :
 Proof. exact wiki_names_wrong_parent. Qed.
 Print Assumptions C05_wiki_names_wrong_parent_refuted.
 
+(* AUDIT NOTE: C05_multi_library_refuses and C05_single_library_saves are the first line of process_schema unfolded
+   (can_save = no comma in the library attribute); they carry no content beyond the transcription and are kept as
+   the interface lemma.  The content of the clause is C05_merged_libraries_refuse below (every construction of a
+   multi-library schema produces such a comma) together with its tie to the loader (clause multi-library-refuses). *)
 (* A schema merged from several libraries refuses to save, in every mode and whatever it holds;
    a single library never refuses. *)
 Theorem C05_multi_library_refuses : forall library ws m tags ucs secs,
@@ -308,6 +456,17 @@ Example C05_nonvacuous_wiki :
   /\ row_free_of_reserved false ex_name ex_line = true /\ row_free_of_reserved true ex_name ex_line = true.
 Proof. exact ex_hyps. Qed.
 
+(* the premises of the section theorem hold on a real subtree of HED8.3.0 (Event, Sensory-event with its attributes
+   and description, two further nodes) and the conclusion is the identity there *)
+Example C05_nonvacuous_section :
+  exists lines,
+    write_tag_section no_dis sec_items = map Some lines /\
+    Forall (fun e => name_ok (last (ti_path e) []) = true /\ desc_ok (ti_desc e) = true /\ attr_ok (ti_attrs e) = true
+                     /\ wiki_text_ok (format_tag_attributes no_dis (ti_attrs e)) = true) sec_items /\
+    Forall2 (fun e line => row_free_of_reserved true (last (ti_path e) []) line = true) sec_items lines /\
+    read_tag_section true [] lines = Ok sec_items.
+Proof. exact ex_section. Qed.
+
 Example C05_nonvacuous_attr :
   format_tag_attributes no_dis ex_attrs = ex_attr_string
   /\ parse_attribute_string ex_attr_string = Ok ex_attrs.
@@ -336,7 +495,7 @@ Proof. exact attr_empty_piece_rejected. Qed.
 Example C05_attr_bool_then_value_raises : parse_attribute_string s_a_ab = Exn TypeError.
 Proof. exact attr_bool_then_value_raises. Qed.
 
-(* records for the unrepaired reader (fixed = false) and the same witnesses on the repaired one *)
+(* records for the reader before 784517a / 4719ff8 (fixed = false) and the same witnesses on the current one *)
 Example C05_desc_extend_here_refused :
   schema_text_ok d_extend = true /\ read_tag_line false (line_of d_extend) = Exn HedFileError.
 Proof. exact desc_extend_here_refused. Qed.
@@ -351,7 +510,7 @@ Example C05_desc_outer_blank_after_fix :
   = Ok (Some (mkParsed false 1 n_zork [] (xml_read_desc true d_lead))).
 Proof. exact desc_outer_blank_after_fix. Qed.
 
-(* still true of the repaired reader: the unrepaired rest of C05-F3 *)
+(* still true of the CURRENT reader: the open rest of C05-F3 *)
 Example C05_desc_nowiki_still_removed :
   schema_text_ok d_nowiki = true /\
   read_tag_line true (line_of d_nowiki) = Ok (Some (mkParsed false 1 n_zork [] (Some d_nowiki_gone))).
